@@ -697,9 +697,17 @@ func TestC14(t *testing.T) {
 	// waits for it.  Requesting the channel must not lose messages nor end the connection
 	// (D26, repaired in /repo 1dba6ae: the copy routine kept reading under the deadline that was
 	// set for the previous message and reported a time-out while the handler ran)
-	rec.Suite("closenotify-with-read-timeout", 2*rec.N(1, 20), func(c *ev.Case) {
+	rec.Suite("closenotify-with-read-timeout", 38*rec.N(1, 20), func(c *ev.Case) {
 		rt := []time.Duration{100 * time.Millisecond, 2 * time.Second}[c.I%2]
-		c.Class("closenotify-with-read-timeout/%v", rt)
+		// handlers that return just before a deadline armed earlier expires, on a transport on
+		// which re-arming the deadline takes a moment (2 ms): the old deadline fires in between.
+		// Swept: the handler returns 0..5 ms before a multiple of ReadTimeout.
+		hd, rearm := 3*rt, time.Duration(0)
+		if v := (c.I / 2) % 19; v > 0 {
+			k, j := (v-1)/6+1, (v-1)%6
+			hd, rearm = time.Duration(k)*rt-time.Duration(j)*time.Millisecond, 2*time.Millisecond
+		}
+		c.Class("closenotify-with-read-timeout/%v/handler=%v/rearm=%v", rt, hd, rearm)
 		run(c, "none", func() {
 			sig := func(op string) ev.Sig {
 				return ev.Sig{"op": op, "termination": "none", "variant": "closenotify-with-read-timeout"}
@@ -714,12 +722,13 @@ func TestC14(t *testing.T) {
 					ch = dc.(diam.CloseNotifier).CloseNotify()
 				}
 				mu.Unlock()
-				time.Sleep(3 * rt)
+				time.Sleep(hd)
 			})
 			srv := &diam.Server{Handler: hf, Dict: ctx.Parser, ReadTimeout: rt}
 			ln := memnet.NewListener()
 			go srv.Serve(ln)
 			mc := memnet.NewConn()
+			mc.SetReadDeadlineDelay = rearm
 			ln.Offer(mc)
 			defer func() {
 				mc.FeedEOF()
@@ -730,7 +739,7 @@ func TestC14(t *testing.T) {
 			const n = 3
 			for s := uint32(1); s <= n; s++ {
 				mc.Feed(seqMsg(s, 12))
-				time.Sleep(3*rt + rt/2) // the handler has returned half a ReadTimeout ago
+				time.Sleep(hd + rt/2) // the handler has returned half a ReadTimeout ago
 				synctest.Wait()
 				mu.Lock()
 				got, c0 := len(seen), ch
@@ -743,7 +752,7 @@ func TestC14(t *testing.T) {
 				}
 				if got != int(s) || gone || mc.CloseCount() != 0 {
 					c.Fail(sig("lost-after-closenotify"), nil, nil, "ReadTimeout %v, handlers take %v, CloseNotify requested by the first handler, message k+1 sent %v after the handler of message k returned: after message %d, %d handler invocations, CloseNotify channel closed=%v, transport closed %d time(s) - the peer was never silent for a whole ReadTimeout while the server waited for it",
-						rt, 3*rt, rt/2, s, got, gone, mc.CloseCount())
+						rt, hd, rt/2, s, got, gone, mc.CloseCount())
 					return
 				}
 			}
